@@ -12,6 +12,7 @@ import Mitx.Driver.Restrict
 import Mitx.Driver.Comparers
 import Mitx.Driver.MathArray
 import Mitx.Driver.Sampling
+import Mitx.Driver.Domain
 open Lean
 
 def dispatch (op : String) (j : Json) : Except String Json :=
@@ -33,6 +34,7 @@ def dispatch (op : String) (j : Json) : Except String Json :=
   | "brackets" => Drv.brackets j
   | "restrict" => Drv.restrict j
   | "marr" => Drv.marr j
+  | "domain" => Drv.domainOp j
   | "samp_real" => Drv.sampReal j
   | "samp_int" => Drv.sampInt j
   | "samp_sym" => Drv.sampSym j
